@@ -268,31 +268,53 @@ def run(ctx):
     # ---- R2 usable_reference_position ------------------------------------------------------
     u = facts.one(r"LogRefEntry::usable_reference_position$")
     if ctx.check(u is not None, "C13-R2", "anchor|usable", "usable_reference_position found", ""):
-        eqk = [c for c in u.calls if re.search(r"LogRefKind as std::cmp::PartialEq>::(eq|ne)$", c.func.get("full", ""))]
-        ex = u.calls_to(r"LogRefEntry::exists$")
-        ok_shape = len(eqk) == 1 and len(ex) == 1 and len(u.calls) == 2
-        ctx.check(ok_shape, "C13-R2", "usable-shape", "usable = f(kind == X, exists()) and nothing else (%d calls)" % len(u.calls), u.where())
-        if ok_shape:
-            var = None
-            for a in eqk[0].args:
-                l = pure_local(u, a)
-                d = single_def(u, l) if l is not None else None
-                if d and d[1] == "assign" and d[2]["rv"]["k"] == "agg":
-                    var = d[2]["rv"]["variant"]
-            ctx.check(var == "StructuredPreExisting", "C13-R2", "usable-kind", "the kind tested is StructuredPreExisting (%s)" % var, u.where())
-            ksw = _switch_on_call(u, eqk[0])
-            esw = _switch_on_call(u, ex[0])
-            rets = {bb: (op_const(st["rv"].get("op")) or {}).get("int") for (bb, st) in return_values(u) if st["rv"]["k"] == "use"}
-            good = False
-            if ksw and esw:
-                neg_eq = eqk[0].func.get("full", "").endswith("::ne")
-                k_true, k_false = (ksw[2], ksw[1]) if neg_eq else (ksw[1], ksw[2])
-                # kind != PreExisting -> true ; kind == Pre ∧ exists -> true ; kind == Pre ∧ ¬exists -> false
-                r_kfalse = {rets[b] for b in cfg.reach(u, [k_false]) if b in rets}
-                r_exists = {rets[b] for b in cfg.reach(u, [esw[1]]) if b in rets}
-                r_missing = {rets[b] for b in cfg.reach(u, [esw[2]]) if b in rets}
-                good = r_kfalse == {1} and r_exists == {1} and r_missing == {0} and esw[0] in cfg.reach(u, [k_true])
-            ctx.check(good, "C13-R2", "usable-table", "usable_reference_position = ¬(kind == StructuredPreExisting ∧ ¬exists)", u.where())
+        from .. import dte
+
+        def kind_hook(c):
+            full = c.func.get("full", "")
+            if re.search(r"LogRefKind as std::cmp::PartialEq>::(eq|ne)$", full) and len(c.args) >= 2:
+                var = None
+                for a_ in c.args[:2]:
+                    l = pure_local(u, a_)
+                    d = single_def(u, l) if l is not None else None
+                    if d and d[1] == "assign" and d[2]["rv"]["k"] == "agg":
+                        var = d[2]["rv"]["variant"]
+                return ("K:%s" % var, "bool", not full.endswith("::ne"))
+            if c.matches(r"LogRefEntry::exists$"):
+                return ("E", "bool", True)
+            if c.matches(r"Option::<.*>::is_some$|Option::<.*>::is_none$") and c.args:
+                from .c03 import _field_of
+                if _field_of(u, c.args[0]) == "reference":
+                    return ("E", "bool", c.matches(r"is_some$"))
+            return None
+
+        kind_adt = [a_ for p_, a_ in facts.adts.items() if p_.endswith("code_parser::LogRefKind")]
+        kind_variants = [v_["name"] for v_ in kind_adt[0]["variants"]] if kind_adt else []
+
+        def kind_place(body, place):
+            names = [e.get("n") for e in place["p"] if isinstance(e, dict) and "f" in e]
+            if names[-1:] == ["reference"]:
+                return ("E", True)
+            if names[-1:] == ["kind"]:
+                return ("variants", "K:", kind_variants)
+            return None
+
+        rows = dte.extract(u, 0, set(), dte.Atoms([], kind_hook, kind_place), outcome_local=0)
+        pred = dte.eval_predicate(rows)
+        table = {}
+        atoms_seen = set()
+        for items, res in pred.items():
+            asg = dict(items)
+            atoms_seen |= set(asg)
+            for kv in (True, False):
+                for ev in (True, False):
+                    if asg.get("K:StructuredPreExisting", kv) == kv and asg.get("E", ev) == ev:
+                        table.setdefault((kv, ev), set()).add(res)
+        extra = sorted(a_ for a_ in atoms_seen if a_ not in ("K:StructuredPreExisting", "E"))
+        ctx.check(not extra, "C13-R2", "usable-shape", "usable depends only on `kind == StructuredPreExisting` and `exists` (other conditions: %s)" % (extra or "none"), u.where())
+        want = {(True, True): True, (True, False): False, (False, True): True, (False, False): True}
+        good = all(table.get(k) == {v} for k, v in want.items())
+        ctx.check(good, "C13-R2", "usable-table", "usable_reference_position = ¬(kind == StructuredPreExisting ∧ ¬exists) (table: %s)" % {k: sorted(v, key=str) for k, v in table.items()}, u.where())
     # ---- R3 new key-value --------------------------------------------------------------------
     newb = kinds.get("StructuredNew", [])
     if ctx.check(len(newb) == 1, "C13-R3", "kind-new", "one place marks a statement StructuredNew (%d)" % len(newb), f.where()):
